@@ -42,7 +42,7 @@ func check(c arith.Case, st *core.Stats) error {
 		return fmt.Errorf("%v: unexpected error %v (flags %s)", c, o.Err, core.FlagStr(o.Res))
 	}
 	classify(c, e, st)
-	if e.Limit && o.D.Form == apd.NaN && o.Res.InvalidOperation() {
+	if e.Limit && arith.QuantizeMayReject(c) && c.Op == "quantize" && o.D.Form == apd.NaN && o.Res.InvalidOperation() {
 		st.Class("limit-class-invalid")
 		return nil // at the +/-100000 package limits a clean rejection is acceptable
 	}
